@@ -38,6 +38,10 @@ type LinkConfig struct {
 	// Warm: the face is not new - this many maximum-size packets have been fragmented, sent and reassembled on it
 	// (in order, without loss) before the scenario's messages: thousands of fragments in the life of the stores
 	Warm int `json:"warm,omitempty"`
+	// SeqStart: the sequence number of the sender's next fragment (0: as a new face; otherwise a face - or a peer
+	// implementation - whose counter stands just below 2^32, 2^63 or 2^64: sequence numbers are 64-bit counters
+	// that wrap around, and base sequence = sequence - index is computed modulo 2^64)
+	SeqStart uint64 `json:"seq_start,omitempty"`
 }
 
 type LinkOp struct {
@@ -80,6 +84,9 @@ func (LinkEngine) Generate(prop string, r *kit.Rand, tier string) *kit.Scenario[
 		c.MTU = r.Range(128, 420)
 		per := 8800/(c.MTU-60) + 1
 		c.Warm = 4200/per + r.Range(1, 12)
+	}
+	if c.Wire == "" && c.Frag && r.Chance(0.04) {
+		c.SeqStart = kit.Pick(r, []uint64{1<<32 - 2, 1<<63 - 1, 1<<64 - 1, 1<<64 - 2, 1<<64 - 5, 1<<64 - 40}) - uint64(r.Intn(3))
 	}
 	nmsg := r.Range(1, 3)
 	eff := c.MTU - 40
@@ -169,6 +176,9 @@ func (LinkEngine) Simplify(sc *kit.Scenario[LinkConfig, LinkOp]) []*kit.Scenario
 	}
 	if sc.Config.Threads != 1 {
 		modC(func(c *LinkConfig) { c.Threads = 1 })
+	}
+	if sc.Config.SeqStart != 0 {
+		modC(func(c *LinkConfig) { c.SeqStart = 0 })
 	}
 	if sc.Config.Warm > 0 {
 		modC(func(c *LinkConfig) { c.Warm = 0 })
@@ -397,6 +407,10 @@ func (e LinkEngine) Run(t *testing.T, ctx *kit.Ctx, sc *kit.Scenario[LinkConfig,
 			}
 		}
 		return nil
+	}
+	if c.SeqStart != 0 && wire == nil {
+		tx.VerifSetNextSequence(c.SeqStart)
+		ctx.Probe("sequence-counter-near-a-power-of-two")
 	}
 	for w := 0; w < c.Warm && wire == nil; w++ {
 		raw := makePacket("data", 1000+w%7, 8800)
